@@ -126,3 +126,15 @@ theorem C13_counts_sum_to_samples (p : Params (C+1) D ℝ) (xs : List (Fin D →
   | cons x xs ih =>
     simp only [List.map_cons, List.sum_cons, Finset.sum_add_distrib, ih, resp_sum_one, List.length_cons]
     push_cast; ring
+
+/-- the unit variances that `fit` supplies to a machine whose means were set by hand go through the
+clamping setter like any other assignment: with floors above 1 (data in large units) the machine
+trains with `max(floor, 1)`, never with a variance below its floor -/
+theorem C13_supplied_unit_variances_clamped {C D : ℕ} (s : GState C D ℝ) :
+    (s.setVariances fun _ _ => 1).variances = some (fun c d => max (s.thresholds c d) 1) ∧
+    ∀ v, (s.setVariances fun _ _ => 1).variances = some v → ∀ c d, s.thresholds c d ≤ v c d := by
+  refine ⟨rfl, ?_⟩
+  intro v hv c d
+  simp only [GState.setVariances, Option.some.injEq] at hv
+  rw [← hv]
+  exact le_max_left _ _
